@@ -236,20 +236,19 @@ ODD_STEP_DESCRIPTIONS = _case(
 CONTROLS3 = [THREAD_ENDS_WITH_SYSTEM_EXIT, THREADS_END_WITH_SYSTEM_EXIT_PARALLEL, ABORT_ARGUMENTS, NAMES_ACROSS_LEVELS,
              ODD_STEP_DESCRIPTIONS]
 
-# the untitled step: `lcc.set_step("")` followed by records, then another step; in an lcc.Thread too.  Finding D39 (C07): the
-# unchanged session.py never ends that step.  The model is the repaired behaviour; while `gen.empty_step_ok()` is False the
-# comparison with the model is skipped for cases carrying "model": false (the oracles judge them).
+# the untitled step: `lcc.set_step("")` followed by records, then another step; in an lcc.Thread too.  D39 (C07, repaired): session.py
+# tested the description's truth value and never ended that step (in a thread: AssertionError in Thread.run's finally).
 EMPTY_STEP_DESCRIPTION = dict(_case(
     _p([_s("s0", [_t("t0", [], [{"a": "step", "d": ""}, _LOG, {"a": "step", "d": "next"}, _LOG]),
                   _t("t1", [], [_LOG], rank=2)])]),
-    _cfg(1)), model_if="empty-step")
+    _cfg(1)))
 EMPTY_STEP_IN_THREAD = dict(_case(
     _p([_s("s0", [_t("t0", [], [_LOG, {"a": "thread", "script": [{"a": "step", "d": ""}, _LOG]}, _LOG]),
                   _t("t1", [], [_LOG], rank=2)])]),
-    _cfg(1)), model_if="empty-step")
+    _cfg(1)))
 
-# an lcc.Thread ended by a project's own BaseException (not SystemExit): an uncaught exception of user code that
-# `Thread.run` (`except Exception`) does not record — the test is reported passed (finding D40, C02)
+# an lcc.Thread ended by a project's own BaseException (not SystemExit): an uncaught exception of user code — the test is
+# FAILED (D40, C02, repaired: `Thread.run` only had `except Exception`, recorded nothing and the test was reported passed)
 THREAD_ENDS_WITH_PANIC = _case(
     _p([_s("s0", [_t("t0", [], [_LOG, {"a": "thread", "script": [_LOG, _PANIC]}, _LOG]), _t("t1", [], [_LOG], rank=2)])]),
     _cfg(1))
